@@ -31,14 +31,15 @@ def demo_commands(src):
     for l in txt.splitlines():
         l = l.strip().strip("`")
         l = re.sub(r"^cd\s+\S+\s*&&\s*", "", l)          # "cd <repo-root> && cargo test …"
-        if re.match(r"^(CARGO_NET_OFFLINE=true\s+)?cargo\s+(test|run|nextest)", l):
+        if re.match(r"^([A-Z_]+=\S+\s+)*cargo\s+(test|run|nextest)", l):
             cmds.append(l)
     return txt, cmds
 
 
 def place_demo(src, txt):
     """copy demo.rs where demo_cmd.txt says (looks for a path under shuttle/tests or examples)"""
-    m = re.search(r"(shuttle(?:-[a-z]+)?/(?:tests|examples)/[A-Za-z0-9_./-]+\.rs|wrappers/[A-Za-z0-9_./-]+\.rs)", txt)
+    m = re.search(r"cp\s+\S*demo\.rs\s+(?:<repo-root>/)?(\S+\.rs)", txt) or \
+        re.search(r"(shuttle(?:-[a-z]+)?/(?:tests|examples)/[A-Za-z0-9_./-]+\.rs|wrappers/[A-Za-z0-9_./-]+\.rs)", txt)
     dst = m.group(1) if m else "shuttle/tests/seed_demo.rs"
     full = os.path.join(WT, dst)
     os.makedirs(os.path.dirname(full), exist_ok=True)
@@ -76,8 +77,11 @@ def main():
     if full:
         rct, outt = sh("cargo nextest run --workspace --no-fail-fast --tool-config-file pb:/w/lib/nextest.toml --profile pb --test-threads 8 --offline", timeout=5400)
     else:
-        rct, outt = sh("cargo nextest run -p shuttle-engine -p shuttle-schedulers -p shuttle-std -p shuttle --no-fail-fast --offline --test-threads 8 "
-                       "-E 'not (test(some_senders_with_blocking) | test(batch_semaphore_test) | test(=ui))'", timeout=5400)
+        pk = "-p shuttle-engine -p shuttle-schedulers -p shuttle-std -p shuttle"
+        if any(t.startswith("wrappers") for t in touched) or "tokio" in open(patch).read():
+            pk += " -p shuttle-tokio-impl-inner -p shuttle-parking_lot-impl"
+        rct, outt = sh(f"cargo nextest run {pk} --no-fail-fast --offline --test-threads 8 "
+                       "-E 'not (test(senders_with_blocking) | test(batch_semaphore_test) | test(=ui) | test(semtest_) | test(notify_mpmc_no_deadlock))'", timeout=5400)
     fails = [l for l in outt.splitlines() if re.search(r"^\s+(FAIL|TIMEOUT|SIGABRT|SIGSEGV)\b", l)]
     fails = [l for l in fails if not any(k in l for k in KNOWN_BAD)]
     summ = [l for l in outt.splitlines() if "Summary" in l]
